@@ -393,11 +393,13 @@ func c02Explore(c c02Case) (vs []ev.V) {
 				n++
 				img2 := filepath.Join(base, fmt.Sprintf("i%d", n))
 				os.Mkdir(img2, 0o755)
+				// state at the first crash, then the recovery run's operations up to its own crash point on top
+				if err := vos.Image(log0, p1.K, p1.V, h0.SpoolDir, img2); err != nil {
+					panic(err)
+				}
 				if err := vos.Image(log1, p2.K, p2.V, img, img2); err != nil {
 					panic(err)
 				}
-				// files of the first image that recovery never touched are still there
-				c02CarryOver(log1, p2.K, img, img2, metas)
 				pre2 := newC02Pre()
 				pre2.absorb(sc, h0, int64(p1.K), nil)
 				pre2.absorb(sc, h1, int64(p2.K), attemptBase)
@@ -418,31 +420,6 @@ func c02Explore(c c02Case) (vs []ev.V) {
 }
 
 var c02FailPath = map[string][]c02Point{}
-
-// c02CarryOver copies files that existed in the first image and were not
-// created/removed/renamed by the recovery run before its crash point.
-func c02CarryOver(log []vos.Op, k int, src, dst string, _ map[string]c02Meta) {
-	touched := map[string]bool{}
-	for i := 0; i < k && i < len(log); i++ {
-		for _, p := range []string{log[i].Path, log[i].Path2} {
-			if p != "" {
-				touched[filepath.Base(p)] = true
-			}
-		}
-	}
-	ents, _ := os.ReadDir(src)
-	for _, e := range ents {
-		if touched[e.Name()] {
-			continue
-		}
-		if _, err := os.Stat(filepath.Join(dst, e.Name())); err == nil {
-			continue
-		}
-		if b, err := os.ReadFile(filepath.Join(src, e.Name())); err == nil {
-			os.WriteFile(filepath.Join(dst, e.Name()), b, 0o644)
-		}
-	}
-}
 
 func c02OpName(log []vos.Op, k int) string {
 	if k >= len(log) {
